@@ -161,7 +161,9 @@ OpUnwound ==
       isAfter  == IF hasSnap THEN Refines(T', f1) ELSE (Has("obs") /\ ObsOK(f1))
   IN /\ m' = IF isBefore THEN f0 ELSE IF isAfter THEN f1
              ELSE IF hasSnap /\ RangeOK(T') THEN FromGraph(Contents(T')) ELSE f0
-     /\ des' = R!Empty /\ aged' = {}
+     \* a look-up that unwound changed nothing: handles stay issued; a mutation that unwound ends them
+     /\ des' = IF Ev.op \in {"get", "fil", "filby"} THEN des ELSE R!Empty
+     /\ aged' = IF Ev.op \in {"get", "fil", "filby"} THEN aged ELSE {}
      /\ V("TORN", isBefore \/ isAfter, <<"after a panic in callback", Ev.inj, "of", Ev.op, "contents are neither before nor after">>)
      /\ (hasSnap => /\ V("TORNWF", WellFormed(T'), "tree invalid after a callback panic")
                     /\ V("TORNPOOL", PoolOK(T'), "slot accounting broken after a callback panic"))
